@@ -39,6 +39,25 @@ def _looks_numeric(n):
     return True
 
 
+def _boolish(n):
+    """expression whose value is a boolean (array) whatever its operands: comparisons and their combinations / reshapes"""
+    if isinstance(n, ast.Compare):
+        return True
+    if isinstance(n, ast.UnaryOp) and isinstance(n.op, (ast.Not, ast.Invert)):
+        return _boolish(n.operand)
+    if isinstance(n, ast.BinOp) and isinstance(n.op, (ast.BitAnd, ast.BitOr)):
+        return _boolish(n.left) and _boolish(n.right)
+    if isinstance(n, ast.Call):
+        f = n.func
+        if isinstance(f, ast.Attribute) and f.attr in ("reshape", "ravel", "flatten", "squeeze", "transpose", "copy"):
+            if isinstance(f.value, ast.Name) and f.value.id in ("np", "numpy"):
+                return bool(n.args) and _boolish(n.args[0])
+            return _boolish(f.value)
+        if isinstance(f, ast.Attribute) and f.attr in ("logical_and", "logical_or", "logical_not", "isnan", "isfinite", "isin", "isclose"):
+            return True
+    return False
+
+
 class _Canon(ast.NodeTransformer):
     def visit_Compare(self, n):
         self.generic_visit(n)
@@ -128,6 +147,11 @@ class _Canon(ast.NodeTransformer):
             if not isinstance(f.value, ast.Constant):
                 return ast.copy_location(ast.Call(func=ast.Attribute(value=ast.Name(id="np", ctx=ast.Load()), attr=f.attr, ctx=ast.Load()),
                                                   args=[f.value] + n.args, keywords=n.keywords), n)
+        # np.logical_and(a, b) -> a & b, np.logical_or -> |, for operands that are boolean by construction
+        if isinstance(f, ast.Attribute) and f.attr in ("logical_and", "logical_or") and isinstance(f.value, ast.Name) and f.value.id in ("np", "numpy") \
+                and len(n.args) == 2 and not n.keywords and all(_boolish(a) for a in n.args):
+            op = ast.BitAnd() if f.attr == "logical_and" else ast.BitOr()
+            return self.visit_BinOp(ast.copy_location(ast.BinOp(left=n.args[0], op=op, right=n.args[1]), n))
         # dict(a, **b) -> {**a, **b}
         if isinstance(f, ast.Name) and f.id == "dict" and len(n.args) == 1 and n.keywords and all(k.arg is None for k in n.keywords):
             return ast.copy_location(ast.Dict(keys=[None] * (1 + len(n.keywords)), values=[n.args[0]] + [k.value for k in n.keywords]), n)
